@@ -5,7 +5,7 @@ import ir
 import ieg
 import paths
 import dispatch
-from . import c04
+from . import c04, common
 from .c17 import variant_of, agg_field, cv, nonconst_conds, case_value
 
 REQ = "parser::Request"
@@ -240,6 +240,64 @@ def run_cross_record(rep, facts):
     rep.floor("R1.7", "record-end rules", n, 2)
 
 
+PSI = "parser::request::ParamsStateInner"
+EMPTYING = ("clear", "truncate", "drain", "split_off", "set_len", "take", "replace", "swap")
+
+
+def run_pair_buffer_not_discarded(rep, facts):
+    """R1.10: "an environment equal to the last-value-wins map of the transmitted name-value pairs ... does not depend on how the Params payload is
+    cut into records": the bytes in the pair buffer of the Params state are the beginning of a transmitted pair that crosses a record boundary.
+    In every function that empties that buffer, an insertion into the environment happened on every path to the emptying call -- a path that
+    clears, truncates, drains or replaces the buffer without having inserted drops a transmitted pair for exactly those cuts that split it."""
+    rep.rule("R1.10", "the pair buffer of the Params state (bytes of a pair that crosses a record boundary) is emptied only on paths that inserted the pair into the environment")
+    acc = F.field_accesses(facts, PSI, "buffer")
+    bodies = {}
+    for (b, bi, how, sp) in acc:
+        if not b.promoted:
+            bodies.setdefault(b.path, b)
+    n_sites = 0
+    for path_, b in sorted(bodies.items()):
+        if "Clone" in b.npath or "fmt" in b.npath or b.npath == PSI + "::new":
+            continue
+        g = ieg.IEG(facts, b, inline_filter=lambda x: False)
+
+        def is_buf(e):
+            e = ir.peel(e)
+            return e[0] == 'field' and e[2] == 'buffer'
+
+        def is_params(e):
+            e = ir.peel(e)
+            return e[0] == 'field' and e[2] == 'params'
+        sites = []
+        for n in g.all_nodes():
+            t = n.term
+            if t["k"] != "call" or n.noise() or not t["args"]:
+                continue
+            m = (g.callee(n) or "").split("::")[-1]
+            if m in EMPTYING and any(is_buf(g.arg(n, k)) for k in range(min(2, len(t["args"])))):
+                sites.append(n)
+
+        def effect(n, m_, lab):
+            t = n.term
+            if t["k"] == "call" and t["args"] and not n.noise():
+                m = (g.callee(n) or "").split("::")[-1]
+                if m in ("insert", "extend") and is_params(g.arg(n, 0)):
+                    return {"INS"}, set()
+            return set(), set()
+        if not sites:
+            continue
+        ins = common.must_dataflow(g, frozenset(), effect)
+        for n in sites:
+            n_sites += 1
+            key = "%s/%s" % (b.npath.replace("parser::request::", ""), (g.callee(n) or "").split("::")[-1])
+            if n.key in ins and "INS" in ins[n.key]:
+                rep.ok("R1.10", key, "the pair was inserted on every path to this call", n.loc())
+            else:
+                rep.violation("R1.10", key, "the pair buffer is emptied on a path that never inserted the pair it holds: a transmitted name-value pair whose bytes straddle a record "
+                              "boundary is dropped", n.loc())
+    rep.floor("R1.10", "calls that empty the pair buffer", n_sites, 1)
+
+
 def run_finished_stays_finished(rep, facts):
     """R1.9: the decoded request survives whatever is fed after the preamble: a call on a parser that is already done leaves the Done state
     alone -- in particular the buffer-full test (StuckOnInput) is taken only for a parser that is not done (instances of R6.2, re-evaluated)."""
@@ -280,6 +338,7 @@ def main(rep, tier):
     check.guard(rep, "R1.7", run_cross_record, f)
     check.guard(rep, "R1.8", run_next_preamble, f)
     check.guard(rep, "R1.9", run_finished_stays_finished, f)
+    check.guard(rep, "R1.10", run_pair_buffer_not_discarded, f)
     rep.floor("R1", "rule instances", len([i for i in rep.instances if i["status"] == "ok"]), 10)
     import check as _c
     _c.witnesses(rep, "C01", f)
